@@ -55,6 +55,9 @@ def run(repo, rep):
     rule_report_none_operands(repo, rep)
     rule_round3(repo, rep)
     rule_round4(repo, rep)
+    rule_dynamic_operands(repo, rep)
+    rule_array_truth(repo, rep)
+    rule_absent_vectors(repo, rep)
     rep.clause("C13-h", "the scale derivation never hands the bias / scale packer a shift it asserts against (range guard of quantise_scale == 0 <= shift < 64) [rule shared with C09-a]")
     from . import c09
 
@@ -995,3 +998,365 @@ def rule_round4(repo, rep):
     rep.check(need <= dis, "C13-l", "ethosu/vela/scheduler.py:SchedulerOperation.__init__", "IFM2 becomes the primary input only if it is not constant, not scalar and not broadcast",
               f"missing exclusion {sorted(need - dis)}: a broadcast second operand is swapped into the primary position with reversed_operands set, and create_npu_elementwise_op asserts ifm_ifm2_correct_order")
     rep.floor("C13-l", 45)
+
+
+# ------------------------------------------------------------------ m: non-constant operands in the constraint checkers
+
+_SEQ_CALLS = {"int", "float", "list", "tuple", "len", "iter", "sum", "max", "min", "set", "sorted", "enumerate", "zip"}
+
+
+def _operand_aliases(fn):
+    al = {}
+    for st in ast.walk(fn):
+        if isinstance(st, ast.Assign) and len(st.targets) == 1:
+            t, v = st.targets[0], st.value
+            if isinstance(t, ast.Name) and isinstance(v, ast.Subscript) and str(norm(v.value)) == "op.inputs" and isinstance(v.slice, ast.Constant):
+                al[t.id] = f"op.inputs[{v.slice.value}]"
+            if isinstance(t, ast.Tuple) and str(norm(v)) == "op.inputs":
+                for i, e in enumerate(t.elts):
+                    if isinstance(e, ast.Name):
+                        al[e.id] = f"op.inputs[{i}]"
+    return al
+
+
+def _values_loads(fn, al):
+    """[(node, operand)] for every load of `<operand>.values` (operand = op.inputs[k], directly or through a local alias of
+    the operand or of its values)."""
+    val_alias = {}
+    for st in ast.walk(fn):
+        if isinstance(st, ast.Assign) and len(st.targets) == 1 and isinstance(st.targets[0], ast.Name) and isinstance(st.value, ast.Attribute) and st.value.attr == "values":
+            base = str(norm(st.value.value))
+            base = al.get(base, base)
+            if base.startswith("op.inputs["):
+                val_alias[st.targets[0].id] = base
+    out = []
+    for x in ast.walk(fn):
+        if isinstance(x, ast.Attribute) and x.attr == "values" and isinstance(x.ctx, ast.Load):
+            base = str(norm(x.value))
+            base = al.get(base, base)
+            if base.startswith("op.inputs["):
+                out.append((x, base))
+        if isinstance(x, ast.Name) and isinstance(x.ctx, ast.Load) and x.id in val_alias:
+            out.append((x, val_alias[x.id]))
+    return out
+
+
+def _none_test(mod, node):
+    """'is' / 'is not' if `node` is the left side of a comparison with None."""
+    p = mod.parents.get(node)
+    if isinstance(p, ast.Compare) and p.left is node and len(p.ops) == 1 and isinstance(p.ops[0], (ast.Is, ast.IsNot)) and isinstance(p.comparators[0], ast.Constant) and p.comparators[0].value is None:
+        return "is" if isinstance(p.ops[0], ast.Is) else "is not"
+    return None
+
+
+def _deref(mod, node, loads_by_id):
+    """How a load of <operand>.values is used if that use fails on None (None for harmless uses)."""
+    p = mod.parents.get(node)
+    how = None
+    if isinstance(p, ast.Attribute) and p.value is node:
+        how = f".{p.attr}"
+    elif isinstance(p, ast.Subscript) and p.value is node:
+        how = "[...]"
+    elif isinstance(p, ast.Call) and node in p.args and (call_name(p) or "").split(".")[-1] in _SEQ_CALLS:
+        how = f"{call_name(p)}()"
+    elif isinstance(p, (ast.BinOp, ast.UnaryOp)):
+        how = "arithmetic"
+    elif isinstance(p, (ast.For, ast.comprehension)) and p.iter is node:
+        how = "iteration"
+    elif isinstance(p, ast.Starred):
+        how = "*"
+    elif isinstance(p, (ast.Assign,)) and isinstance(p.targets[0], (ast.Tuple, ast.List)) and p.value is node:
+        how = "unpacking"
+    if how is None:
+        return None
+    # `X.values is not None and <use of X.values>` in one conjunction: the earlier operand protects the later one
+    cur = node
+    while cur is not None and not isinstance(cur, ast.stmt):
+        par = mod.parents.get(cur)
+        if isinstance(par, ast.BoolOp) and isinstance(par.op, ast.And):
+            idx = next(i for i, v_ in enumerate(par.values) if v_ is cur)
+            for earlier in par.values[:idx]:
+                for y in ast.walk(earlier):
+                    if id(y) in loads_by_id and loads_by_id[id(y)] == loads_by_id.get(id(node)) and _none_test(mod, y) == "is not":
+                        return None
+        cur = par
+    return how
+
+
+def _when_none(mod, fn, operand):
+    """Explores the paths of constraint function `fn` on which `<operand>.values is None` holds (branches of tests of exactly
+    that fact are taken accordingly; all other tests both ways; loops once). Returns (rejects, crashes): rejects = every
+    returning path returns validity False; crashes = uses of the None value on such a path."""
+    c = cfg_of(fn)
+    al = _operand_aliases(fn)
+    loads = [(x, b) for x, b in _values_loads(fn, al) if b == operand]
+    loads_by_id = {id(x): b for x, b in _values_loads(fn, al)}
+    by_node = {}
+    for x, _ in loads:
+        nid = c.node_of(x)
+        if nid is not None:
+            by_node.setdefault(nid, []).append(x)
+    crashes, verdicts = [], []
+
+    def expr_state(e, state):
+        if isinstance(e, ast.Constant) and isinstance(e.value, bool):
+            return e.value
+        if isinstance(e, ast.Name) and e.id == "valid":
+            return state
+        if isinstance(e, ast.Compare):
+            for y in ast.walk(e.left):
+                if id(y) in loads_by_id and loads_by_id[id(y)] == operand:
+                    t = _none_test(mod, y)
+                    if t:
+                        return t == "is"
+        if isinstance(e, ast.BoolOp) and isinstance(e.op, ast.And):
+            vals = [expr_state(v_, state) for v_ in e.values]
+            if any(v_ is False for v_ in vals):
+                return False
+        return None
+
+    def tri(e):
+        """truth of a test under `<operand>.values is None` (None = not determined by that fact)"""
+        if isinstance(e, ast.Compare):
+            for y in ast.walk(e.left):
+                if id(y) in loads_by_id and loads_by_id[id(y)] == operand and mod.parents.get(y) is e:
+                    t = _none_test(mod, y)
+                    if t:
+                        return t == "is"
+            return None
+        if isinstance(e, ast.BoolOp):
+            vals = [tri(v_) for v_ in e.values]
+            if isinstance(e.op, ast.And):
+                return False if any(v_ is False for v_ in vals) else (True if all(v_ is True for v_ in vals) else None)
+            return True if any(v_ is True for v_ in vals) else (False if all(v_ is False for v_ in vals) else None)
+        if isinstance(e, ast.UnaryOp) and isinstance(e.op, ast.Not):
+            v_ = tri(e.operand)
+            return None if v_ is None else not v_
+        return None
+
+    seen_paths = [0]
+
+    def walk(nid, state, visited):
+        seen_paths[0] += 1
+        if seen_paths[0] > 20000:
+            raise AnalysisError(f"{fn.name}: too many paths")
+        if nid in visited or nid in (1, 2):
+            return
+        visited = visited | {nid}
+        nd = c.nodes[nid]
+        restrict = tri(nd.expr) if nd.kind == "test" and nd.expr is not None else None
+        for x in by_node.get(nid, []):
+            t = _none_test(mod, x)
+            if t is None:
+                how = _deref(mod, x, loads_by_id)
+                if how:
+                    crashes.append((x.lineno, how))
+                    return  # the path ends in the exception
+        if nd.kind == "stmt" and isinstance(nd.stmt, ast.Assign) and len(nd.stmt.targets) == 1 and isinstance(nd.stmt.targets[0], ast.Name) and nd.stmt.targets[0].id == "valid":
+            state = expr_state(nd.stmt.value, state)
+        if nd.kind == "stmt" and isinstance(nd.stmt, ast.Return):
+            v = nd.stmt.value
+            first = v.elts[0] if isinstance(v, ast.Tuple) and v.elts else v
+            verdicts.append(expr_state(first, state) if first is not None else None)
+            return
+        for b, lab in c.succ[nid]:
+            if restrict is not None and lab in (True, False) and lab != restrict:
+                continue
+            walk(b, state, visited)
+
+    walk(0, None, frozenset())
+    return bool(verdicts) and all(v is False for v in verdicts), sorted(set(crashes))
+
+
+def rule_dynamic_operands(repo, rep):
+    from .c16 import registrations
+
+    rep.clause("C13-m", "the constraint checkers run on every operator of a valid model: a constraint uses the values of an operand (axis, size, permutation ... tensors, which are "
+               "None when the operand is not constant) only after a constraint that rejects the non-constant case has run - an earlier one of the same operator's list, or any "
+               "semantic constraint for the supported-operator list (registration order interpreted from the two __init__ methods; paths explored with the operand's values = None)")
+    sem = repo.mod("tflite_model_semantic")
+    so = repo.mod("tflite_supported_operators")
+    _, s_sem, _, _ = registrations(repo, sem, "TFLiteSemantic")
+    _, s_so, _, _ = registrations(repo, so, "TFLiteSupportedOperators")
+    memo = {}
+
+    def when_none(m, cls, cname, operand):
+        key = (cls, cname, operand)
+        if key not in memo:
+            fn = m.functions.get(f"{cls}.{cname}")
+            memo[key] = _when_none(m, fn, operand) if fn is not None else (False, [])
+        return memo[key]
+
+    def operands(m, cls, cname):
+        fn = m.functions.get(f"{cls}.{cname}")
+        if fn is None:
+            return []
+        return sorted({b for _, b in _values_loads(fn, _operand_aliases(fn))})
+
+    n = 0
+    sem_established = {}
+    for m, cls, spec, path in ((sem, "TFLiteSemantic", s_sem, "ethosu/vela/tflite_model_semantic.py"), (so, "TFLiteSupportedOperators", s_so, "ethosu/vela/tflite_supported_operators.py")):
+        reported = set()
+        for opn, cons in sorted(spec.items()):
+            have = set(sem_established.get(opn, ())) if cls == "TFLiteSupportedOperators" else set()
+            for cname in cons:
+                for operand in operands(m, cls, cname):
+                    rejects, crashes = when_none(m, cls, cname, operand)
+                    n += 1
+                    if operand not in have:
+                        for line, how in crashes:
+                            if (cname, operand, line) in reported:
+                                continue
+                            reported.add((cname, operand, line))
+                            rep.bad("C13-m", f"{path}:{cls}.{cname}", f"{operand}.values is used only where a non-constant operand has been rejected",
+                                    f"{how} on {operand}.values (line {line}) for {opn}: nothing before it rejects a non-constant operand, whose values are None "
+                                    f"(valid model with a computed {operand} tensor -> TypeError / AttributeError traceback instead of CPU fallback)")
+                        if not crashes:
+                            rep.ok("C13-m", f"{path}:{cls}.{cname}", f"{operand}.values is not dereferenced while it may be None ({opn})", "")
+                    else:
+                        rep.ok("C13-m", f"{path}:{cls}.{cname}", f"{operand}.values is used after an earlier constraint rejected the non-constant case ({opn})", "")
+                    if rejects:
+                        have.add(operand)
+            if cls == "TFLiteSemantic":
+                sem_established[opn] = have
+    if n < 20:
+        raise AnalysisError(f"constraint operand uses: only {n} found")
+    rep.floor("C13-m", 20)
+
+
+def rule_array_truth(repo, rep):
+    """(n) per-axis quantisation: scale_f32 / zero_point hold one value per channel (NumPy arrays). An elementwise comparison of
+    such a field is an array; using it as a truth value raises `ValueError: The truth value of an array ... is ambiguous`."""
+    rep.clause("C13-n", "a comparison on a quantisation field that is an array for per-axis quantised tensors (scale_f32, zero_point) is reduced (np.all / np.any / np.array_equal / .all()) "
+               "before it is used as a truth value (if / and / or / not / assert / bool return)")
+    FIELDS = ("scale_f32", "zero_point")
+    REDUCERS = {"np.all", "np.any", "numpy.all", "numpy.any", "all", "any", "np.array_equal", "numpy.array_equal", "np.allclose", "np.isclose", "bool"}
+    n = 0
+    # scope: code that sees every tensor of the model before any operator has been judged (reader, the two constraint checkers and
+    # the tensor.py helpers they call). After placement NPU operators have been filtered by constraint_tens_quant_per_axis and the
+    # reader gives every operator its own bias clone, so the same comparisons in weight_compressor cannot meet two arrays.
+    for mname in ("tensor", "tflite_reader", "model_reader", "tflite_model_semantic", "tflite_supported_operators", "operation", "supported_operators_util"):
+        m = repo.mod(mname)
+        for cmp_ in ast.walk(m.tree):
+            if isinstance(cmp_, ast.Call) and (call_name(cmp_) or "") in ("np.array_equal", "numpy.array_equal") and any(isinstance(a_, ast.Attribute) and a_.attr in FIELDS for a_ in cmp_.args):
+                fn = m.enclosing_function(cmp_)
+                n += 1
+                rep.ok("C13-n", f"ethosu/vela/{m.name}.py:{m.qualname_of(fn) if fn else '<module>'}", f"`{str(norm(cmp_))[:70]}` compares the field as an array", "")
+                continue
+            if not isinstance(cmp_, ast.Compare) or any(isinstance(o, (ast.Is, ast.IsNot, ast.In, ast.NotIn)) for o in cmp_.ops):
+                continue
+            operands = [cmp_.left] + list(cmp_.comparators)
+            if not any(isinstance(o, ast.Attribute) and o.attr in FIELDS for o in operands):
+                continue
+            # climb to the context the comparison's value is used in
+            cur, ctx = cmp_, None
+            while True:
+                par = m.parents.get(cur)
+                if par is None:
+                    break
+                if isinstance(par, ast.Call):
+                    cn = call_name(par) or ""
+                    if cn in REDUCERS or (isinstance(par.func, ast.Attribute) and par.func.attr in ("all", "any", "item")):
+                        ctx = "reduced"
+                        break
+                    ctx = "argument"
+                    break
+                if isinstance(par, ast.Attribute) and par.attr in ("all", "any"):
+                    cur = par
+                    continue
+                if isinstance(par, ast.BoolOp) or (isinstance(par, ast.UnaryOp) and isinstance(par.op, ast.Not)):
+                    ctx = "truth"
+                    break
+                if isinstance(par, (ast.If, ast.While, ast.IfExp, ast.Assert)) and par.test is cur:
+                    ctx = "truth"
+                    break
+                if isinstance(par, ast.Return):
+                    fn = m.enclosing_function(par)
+                    ctx = "truth" if fn is not None and fn.returns is not None and str(norm(fn.returns)) == "bool" else "value"
+                    break
+                if isinstance(par, ast.stmt):
+                    ctx = "value"
+                    break
+                cur = par
+            fn = m.enclosing_function(cmp_)
+            n += 1
+            rep.check(ctx != "truth", "C13-n", f"ethosu/vela/{m.name}.py:{m.qualname_of(fn) if fn else '<module>'}", f"`{str(norm(cmp_))[:70]}` is reduced before it is used as a truth value",
+                      "elementwise comparison of a per-channel quantisation field used as a boolean: a model with per-axis quantised tensors on this path dies with "
+                      "'ValueError: The truth value of an array with more than one element is ambiguous'")
+    if n < 2:
+        raise AnalysisError(f"comparisons on quantisation fields: only {n} found")
+    rep.floor("C13-n", 2)
+
+
+def rule_absent_vectors(repo, rep):
+    """(o) generated flatbuffer accessors `XAsNumpy()` return the int 0 when the vector is absent from the file. A value taken
+    from such an accessor and kept as an operator attribute must not reach len() / iteration / *-unpacking in the matching
+    serialize() unless one of the two sides normalises or tests it."""
+    rep.clause("C13-o", "an absent flatbuffer vector (XAsNumpy() returns the int 0) kept as an operator attribute by a deserialize() is not consumed as a sequence by the matching serialize()")
+    tm = repo.mod("tflite_mapping")
+    # premise: the generated accessor really returns 0 for an absent vector
+    gen = repo.modules.get("tflite.Operator")
+    if gen is None:
+        raise AnalysisError("generated module tflite/Operator.py not loaded")
+    acc = gen.functions.get("Operator.CustomOptionsAsNumpy")
+    if acc is None or not any(isinstance(r, ast.Return) and isinstance(r.value, ast.Constant) and r.value.value == 0 for r in ast.walk(acc)):
+        raise AnalysisError("Operator.CustomOptionsAsNumpy: 'return 0' for the absent vector not found (premise of C13-o)")
+    n = 0
+    classes = sorted({q.split(".")[0] for q in tm.functions if q.endswith(".deserialize")} & {q.split(".")[0] for q in tm.functions if q.endswith(".serialize")})
+    for cls in classes:
+        de, se = tm.func(f"{cls}.deserialize"), tm.func(f"{cls}.serialize")
+        raw = {}
+        for st in ast.walk(de):
+            if isinstance(st, ast.Assign) and len(st.targets) == 1 and isinstance(st.targets[0], ast.Name) and isinstance(st.value, ast.Call) and isinstance(st.value.func, ast.Attribute) \
+                    and st.value.func.attr.endswith("AsNumpy"):
+                raw[st.targets[0].id] = st.value.func.attr
+        keys = {}
+        for st in ast.walk(de):
+            if isinstance(st, ast.Assign) and isinstance(st.targets[0], ast.Subscript) and str(norm(st.targets[0].value)) == "attrs" and isinstance(st.targets[0].slice, ast.Constant):
+                v = st.value
+                src = raw.get(v.id) if isinstance(v, ast.Name) else (v.func.attr if isinstance(v, ast.Call) and isinstance(v.func, ast.Attribute) and v.func.attr.endswith("AsNumpy") else None)
+                if src:
+                    keys[st.targets[0].slice.value] = src
+        if not keys:
+            continue
+        c = cfg_of(se)
+        for st in ast.walk(se):
+            if not (isinstance(st, ast.Assign) and len(st.targets) == 1 and isinstance(st.targets[0], ast.Name)):
+                continue
+            v = st.value
+            k = None
+            if isinstance(v, ast.Call) and str(norm(v.func)) == "attrs.get" and v.args and isinstance(v.args[0], ast.Constant):
+                k = v.args[0].value
+            elif isinstance(v, ast.Subscript) and str(norm(v.value)) == "attrs" and isinstance(v.slice, ast.Constant):
+                k = v.slice.value
+            if k not in keys:
+                continue
+            name = st.targets[0].id
+            uses = []
+            for x in ast.walk(se):
+                if isinstance(x, ast.Name) and x.id == name and isinstance(x.ctx, ast.Load):
+                    p = tm.parents.get(x)
+                    if (isinstance(p, ast.Call) and call_name(p) in ("len", "list", "tuple", "bytes", "bytearray") and x in p.args) or isinstance(p, ast.Starred) or (isinstance(p, (ast.For, ast.comprehension)) and p.iter is x):
+                        uses.append(x)
+            tests = [t for t in c.nodes[3:] if t.kind == "test" and any(isinstance(y, ast.Name) and y.id == name for y in ast.walk(t.expr))]
+            for x in uses:
+                nid = c.node_of(x)
+                guarded = any(c.dominates(t.id, nid) and t.id != nid for t in tests)
+                n += 1
+                rep.check(guarded, "C13-o", f"ethosu/vela/tflite_mapping.py:{cls}.serialize", f"attribute '{k}' (from {keys[k]}() in deserialize) is tested before it is used as a sequence",
+                          f"`{str(norm(tm.parents.get(x)))[:50]}` on the value deserialize() took from {keys[k]}(): for an operator without that vector the accessor returns the int 0 "
+                          "(valid model with a custom operator that has no custom_options -> TypeError: object of type 'int' has no len() while writing)")
+        if not any(True for _ in keys):
+            continue
+    # deserialize sides that normalise the accessor result count as examined sites
+    for cls in classes:
+        de = tm.func(f"{cls}.deserialize")
+        for x in ast.walk(de):
+            if isinstance(x, ast.Call) and isinstance(x.func, ast.Attribute) and x.func.attr.endswith("AsNumpy"):
+                p = tm.parents.get(x)
+                if isinstance(p, ast.IfExp) or any(isinstance(a_, ast.If) and any(y is x for y in ast.walk(a_)) and ("IsNone" in str(norm(a_.test)) or "Length" in str(norm(a_.test))) for a_ in ast.walk(de)):
+                    n += 1
+                    rep.ok("C13-o", f"ethosu/vela/tflite_mapping.py:{cls}.deserialize", f"{x.func.attr}() result is normalised where it is read", "")
+    if n < 1:
+        raise AnalysisError("C13-o: no accessor result kept as attribute found")
+    rep.floor("C13-o", 1)
